@@ -270,6 +270,17 @@ func (e *Explorer) feasible(extra *smt.Term) smt.Result {
 // query decides pc ∧ extra. With a known full model of pc it only sends the constraints that share
 // variables (transitively) with extra; a satisfying partial assignment is merged into the full model.
 func (e *Explorer) query(extra *smt.Term) (smt.Result, *cachedModel) {
+	// a path that is still issuing queries after the harness deadline ends here as inconclusive (a long path of
+	// slow queries must not carry the run far past its budget)
+	if e.Sh != nil && !e.Sh.Deadline.IsZero() && time.Now().After(e.Sh.Deadline) {
+		e.Sh.mu.Lock()
+		if e.Sh.BudgetHit == "" {
+			e.Sh.BudgetHit = "time budget"
+			e.Sh.cond.Broadcast()
+		}
+		e.Sh.mu.Unlock()
+		panic(pathAbort{"cut at the time budget"})
+	}
 	var base *cachedModel
 	for i := len(e.models) - 1; i >= 0; i-- {
 		if e.models[i].alive {
